@@ -25,6 +25,8 @@ def frac(x):
         raise TypeError(x)
     if isinstance(x, int):
         return Fraction(x)
+    if float(x).is_integer():
+        return Fraction(int(x))          # integer-valued floats (also >= 2^53, where repr is not exact) mean themselves
     return Fraction(repr(float(x)))
 
 
@@ -136,6 +138,11 @@ KNAP_EDGE = [
     {"values": [3, 4], "weights": [0.75048828125, 0.75], "capacity": 1.5, "minimize": True},
     {"values": [1, 2, 3], "weights": [150.5, 150.25, 150.25], "capacity": 300.5, "minimize": False},
     {"values": [7], "weights": [9], "capacity": 3, "minimize": False},
+    {"values": [100, 1, 1], "weights": [99999, 1, 1], "capacity": 100001, "minimize": False},   # integer capacity just above 10^5
+    {"values": [7, 5], "weights": [100000, 1], "capacity": 100000, "minimize": False},
+    {"values": [2**31, 2**31 + 1, 3], "weights": [1, 1, 1], "capacity": 2, "minimize": False},
+    {"values": [2**44 + 1, 2**44], "weights": [2, 2], "capacity": 3, "minimize": True},
+    {"values": [3, 4], "weights": [10**18, 2**60 + 1], "capacity": 5, "minimize": False},
     {"values": [1, 2], "weights": [1], "capacity": 3, "minimize": False},                   # ValueError
     {"values": [1, 2], "weights": [1, 1], "capacity": -1, "minimize": False},               # ValueError
     {"values": [1], "weights": [1, 1], "capacity": 1, "minimize": True},                    # ValueError
@@ -214,6 +221,9 @@ BIN_EDGE = [
     {"sizes": [3, 3, 2, 2, 2, 2], "capacity": 7, "algorithm": "first-fit-decreasing"},   # FFD 3 bins, OPT 2
     {"sizes": [0.1] * 10, "capacity": 1.0, "algorithm": "first-fit"},
     {"sizes": [0.7, 0.3, 0.3, 0.7], "capacity": 1.0, "algorithm": "best-fit"},
+    {"sizes": [2**31, 2**31, 1], "capacity": 2**32, "algorithm": "first-fit"},           # third item misses by one unit at 2^32
+    {"sizes": [10**18, 1, 10**18 - 1], "capacity": 10**18, "algorithm": "best-fit"},
+    {"sizes": [2**53, 2**53 + 1, 1], "capacity": 2**54, "algorithm": "first-fit-decreasing"},
     {"sizes": [6], "capacity": 5, "algorithm": "first-fit"},                      # ValueError
     {"sizes": [1], "capacity": 0, "algorithm": "first-fit"},                      # ValueError
     {"sizes": [1, -1], "capacity": 5, "algorithm": "first-fit"},                  # ValueError
@@ -239,40 +249,380 @@ def gen_bin_malformed(rng):
     return c
 
 
+# ---------------------------------------------------------------- round-2 families (HARDENING.md classes I S M O A H, L where meaningful)
+BIG = [2**31, 10**9, 4_700_000_000, 2**44 + 1, 2**53 - 1, 2**53 + 1, 2**60, 10**18]
+SPELLINGS = ["first-fit", "FIRST-FIT", "First_Fit", "ff", "FF", "best-fit", "Best-Fit", "BEST_FIT", "bf", "Bf",
+             "first-fit-decreasing", "First_Fit_Decreasing", "FF-DECREASING", "ff_decreasing", "best-fit-decreasing",
+             "BEST_FIT_DECREASING", "bf-decreasing", "Bf_Decreasing", "best_fit-decreasing"]
+CONTAINERS = ["tuple", "range", "array", "tuple"]
+
+
+def _k(kind, cls, **kw):
+    return {"kind": kind, "cls": cls, **kw}
+
+
+def gen_knap_r2(rng, fam, thorough=False):
+    mz = rng.random() < 0.3
+    if fam == "S-cap":
+        # integer capacity beyond 10^5 (threshold of the scaling code), a few items that nearly fill it + tiny items
+        cap = rng.choice([100000, 100001, 131072, 131073, 200000, rng.randint(100001, 400000)] + ([10**6, 1_000_003] if thorough else []))
+        nt = rng.randint(3, 9)
+        tiny = [rng.randint(1, rng.choice([1, 2, 5, 9])) for _ in range(nt)]
+        r = rng.random()
+        if r < 0.5:      # one big item, everything fits exactly or just not
+            big = [cap - sum(tiny) + rng.choice([0, 0, 0, 1, -1])]
+        elif r < 0.8:    # two big items of which one fits together with the tiny ones
+            big = [cap - sum(tiny), cap - rng.randint(0, 3)]
+        else:            # unit-weight items only
+            big, tiny = [], [1] * rng.randint(5, 12)
+        weights = big + tiny
+        values = [rng.randint(20, 100) for _ in big] + [rng.randint(1, 5) for _ in tiny]
+        order = list(range(len(weights)))
+        rng.shuffle(order)
+        weights = [weights[i] for i in order]
+        values = [values[i] for i in order]
+        if rng.random() < 0.2:
+            weights = [float(w) for w in weights]
+            cap = float(cap)
+        return _k("knap", "r2-S-cap", values=values, weights=weights, capacity=cap, minimize=False)
+    if fam == "S-n":
+        n = rng.choice([13, 17, 33, 65, 129, 257] + ([1025, 2049] if thorough else [513]))
+        cap = rng.randint(0, 24)
+        weights = [0 if rng.random() < 0.05 else rng.randint(1, rng.choice([3, 8, 30])) for _ in range(n)]
+        values = [rng.randint(0, 9) for _ in range(n)]
+        if mz:
+            values = [v - rng.choice([0, 0, 3]) for v in values]      # some negative values: minimize has work to do
+        return _k("knap", "r2-S-n", values=values, weights=weights, capacity=cap, minimize=mz)
+    if fam in ("M-val", "M-val-huge"):
+        n = rng.randint(2, 7)
+        pool = [b for b in BIG if b < 2**49] if fam == "M-val" else BIG
+        base = rng.choice(pool)
+        values = [base + rng.choice([0, 1, -1, 2, rng.randint(-5, 5)]) if rng.random() < 0.7 else rng.randint(0, 9) for _ in range(n)]
+        if fam == "M-val-huge" and not any(v >= 2**53 for v in values):
+            values[0] = rng.choice([2**53 + 1, 2**60 + 1, 10**18 + 1])
+        weights = [rng.randint(0, 4) for _ in range(n)]
+        cap = rng.randint(0, max(1, sum(weights)))
+        if fam == "M-val" and rng.random() < 0.3:
+            values = [float(v) for v in values]
+        return _k("knap", "r2-" + fam, values=values, weights=weights, capacity=cap, minimize=mz)
+    if fam == "M-w":
+        n = rng.randint(2, 6)
+        weights = [rng.choice(BIG) + rng.choice([0, 1]) if rng.random() < 0.4 else rng.randint(0, 5) for _ in range(n)]
+        if rng.random() < 0.3:
+            weights = [float(w) for w in weights]
+        values = [rng.randint(0, 9) for _ in range(n)]
+        cap = rng.randint(0, 12)
+        return _k("knap", "r2-M-w", values=values, weights=weights, capacity=cap, minimize=mz)
+    if fam == "M-capf":
+        # huge non-integral capacity: scale = 100000/capacity, weights of the magnitude of the capacity
+        K = rng.choice([10**6, 2**31, 10**9, 2**40])
+        cap = K + rng.choice([0.5, 0.25, 0.75])
+        n = rng.randint(1, 3)
+        weights = [rng.choice([cap, float(K // 2), float(K // 3), K / 4 + 0.5, 0, float(K)]) for _ in range(n)]
+        values = [rng.randint(0, 9) for _ in range(n)]
+        return _k("knap", "r2-M-capf", values=values, weights=weights, capacity=cap, minimize=mz)
+    if fam == "M-tol":
+        # decimals on a 1e-6 .. 1e-8 grid (coarser than the code's 1e-9 tolerance): an excess of one grid step must count
+        n = rng.randint(2, 5)
+        base = [rng.choice([0.25, 0.5, 0.75, 0.1, 0.3, 1.0, 0.125]) for _ in range(n)]
+        sub = [i for i in range(n) if rng.random() < 0.6] or [0]
+        capf = sum(frac(base[i]) for i in sub)
+        d = rng.choice([Fraction(1, 10**6), Fraction(1, 10**7), Fraction(1, 10**8)])
+        ws = [frac(b) + (d * rng.choice([1, 1, 2, -1]) if rng.random() < 0.5 else 0) for b in base]
+        weights = [float(w) for w in ws]
+        values = [rng.randint(1, 9) for _ in range(n)]
+        return _k("knap", "r2-M-tol", values=values, weights=weights, capacity=float(capf), minimize=mz)
+    if fam == "I":
+        c = gen_knap(rng, "int")
+        how = rng.choice(CONTAINERS)
+        if how == "range":
+            n = rng.randint(1, 8)
+            a, st = rng.randint(0, 4), rng.choice([1, 1, 2])
+            c["values"] = list(range(a, a + st * n, st)) if rng.random() < 0.6 else list(range(a + st * (n - 1), a - 1, -st))
+            b, st2 = rng.randint(0, 3), rng.choice([1, 1, 2])
+            c["weights"] = list(range(b, b + st2 * n, st2))
+            c["capacity"] = rng.randint(0, max(1, sum(c["weights"])))
+        if how == "array" and rng.random() < 0.5:
+            c["values"] = [float(int(frac(v))) for v in c["values"]]
+            c["weights"] = [float(int(frac(w))) for w in c["weights"]]
+        c["values"] = [int(frac(v)) if how != "array" and frac(v).denominator == 1 else v for v in c["values"]]
+        return {**c, "cls": "r2-I", "as": how}
+    if fam == "L-mixed":
+        c = gen_knap(rng, rng.choice(["int", "dyadic"]))
+        c["values"] = [float(v) if rng.random() < 0.5 else v for v in c["values"]]
+        c["weights"] = [float(w) if rng.random() < 0.5 else w for w in c["weights"]]
+        if rng.random() < 0.5:
+            c["capacity"] = float(c["capacity"])
+        return {**c, "cls": "r2-L-mixed"}
+    if fam == "L-decvals":
+        # decimal (non-dyadic) VALUES: the objective is a float sum, judged with the 1e-9 tolerance
+        c = gen_knap(rng, rng.choice(["int", "int", "dyadic"]))
+        c["values"] = [rng.choice(DEC_W + [0.01, 0.35, 2.2, 3.3, 9.99, 19.99]) if rng.random() < 0.8 else int(frac(v)) if is_intlike(v) else v for v in c["values"]]
+        return {**c, "cls": "r2-L-decvals"}
+    if fam == "A":
+        c = gen_knap(rng, rng.choice(["int", "int", "dyadic", "fine"]))
+        r = rng.random()
+        if r < 0.4:      # the same object as values and as weights
+            c["values"] = list(c["weights"])
+            c["alias"] = True
+        else:            # earlier calls with the other option on the same objects
+            c["pre"] = rng.choice([[not c["minimize"]], [not c["minimize"], c["minimize"]], [True, False, True]])
+        return {**c, "cls": "r2-A"}
+    if fam == "O":
+        c = gen_knap(rng, rng.choice(["int", "dyadic"]))
+        c["minimize"] = rng.choice([0, 1, True, False])
+        return {**c, "cls": "r2-O"}
+    if fam == "H":
+        # rare histories of the greedy fallback: under minimize (needs negative values), with free (zero-weight) items,
+        # with ties in the ratio order.  Steered by the implementation's own status (rejection sampling).
+        from solvor.knapsack import solve_knapsack
+        mode = rng.choice(["minimize", "free-item", "ratio-tie", "free-item+minimize"])
+        c = None
+        for _ in range(30):
+            c = gen_knap(rng, "fine")
+            n = len(c["values"])
+            j = rng.randrange(n)
+            c["minimize"] = "minimize" in mode
+            if c["minimize"]:
+                c["values"] = [-v for v in c["values"]]
+            if "free-item" in mode:
+                c["weights"][j] = 0
+            if mode == "ratio-tie" and n > 1:
+                k2 = (j + 1) % n
+                c["values"][k2], c["weights"][k2] = c["values"][j], c["weights"][j]
+            r = guarded(solve_knapsack, list(c["values"]), list(c["weights"]), c["capacity"], minimize=c["minimize"], timeout=5)
+            if r[0] == "ok" and r[1].status.name == "FEASIBLE":
+                break
+        return {**c, "cls": "r2-H"}
+    raise ValueError(fam)
+
+
+def gen_bin_r2(rng, fam, thorough=False):
+    algo = rng.choice(MAIN_ALGOS)
+    if fam == "M-int":
+        # a small integer instance blown up to 2^31 .. 10^18, then nudged by a few units: exact fills become near misses
+        c = gen_bin(rng, "int")
+        cap, sizes = int(frac(c["capacity"])), [int(frac(x)) for x in c["sizes"]][:8]
+        K = rng.choice(BIG)
+        cap, sizes = cap * K, [x * K for x in sizes]
+        for i in range(len(sizes)):
+            if sizes[i] > 0 and rng.random() < 0.5:
+                sizes[i] = min(cap, max(1, sizes[i] + rng.choice([1, 2, 3, -1, -2, rng.randint(-5, 5)])))
+        if rng.random() < 0.4 and len(sizes) < 8:
+            sizes.append(rng.randint(1, 5))
+        as_float = rng.random() < 0.3 and cap * (len(sizes) + 1) < 2**53
+        if as_float:
+            sizes, cap = [float(x) for x in sizes], float(cap)
+        return _k("bin", "r2-M-int", sizes=sizes, capacity=cap, algorithm=algo)
+    if fam == "M-tol":
+        cap = rng.choice([1.0, 1.5, 0.5, 2.0, 0.3])
+        n = rng.randint(2, 7)
+        d = rng.choice([Fraction(1, 10**6), Fraction(1, 10**7), Fraction(1, 10**8)])
+        sizes = []
+        while len(sizes) < n:
+            a = frac(rng.choice([x for x in (0.25, 0.5, 0.1, 0.2, 0.3, 0.75, 0.125) if frac(x) < frac(cap)]))
+            b = frac(cap) - a + d * rng.choice([0, 1, 1, 2, -1])       # the partner fits exactly / misses by one grid step
+            sizes += [float(a), float(min(b, frac(cap)))]
+        return _k("bin", "r2-M-tol", sizes=sizes[:n], capacity=cap, algorithm=algo)
+    if fam == "M-tiny":
+        u = rng.choice([Fraction(1, 10**6), Fraction(1, 10**5)])
+        capu = rng.choice([15, 10, 12, 3])
+        n = rng.randint(2, 7)
+        sizes = [float(u * rng.randint(1, capu * 10) / 10) for _ in range(n)]
+        sizes = [x if frac(x) <= u * capu else float(u * capu) for x in sizes]
+        return _k("bin", "r2-M-tiny", sizes=sizes, capacity=float(u * capu), algorithm=algo)
+    if fam == "S-n":
+        n = rng.choice([17, 33, 65, 129, 257] + ([1025, 2049, 20001, 65537] if thorough else [513, 1025]))
+        r = rng.random()
+        if n > 2049:         # keep items x bins affordable: unit sizes, few bins
+            cap = 1000; sizes = [1] * n; ek = -(-n // cap)
+        elif r < 0.25:
+            cap = rng.choice([10, 2, 2**31 * 2]); sizes = [cap // 2] * n; ek = (n + 1) // 2
+        elif r < 0.5:
+            cap = rng.choice([10, 1000 if n > 5000 else 7]); sizes = [1] * n; ek = -(-n // cap)
+        elif r < 0.65:
+            cap = 10; sizes = [7, 3] * (n // 2); ek = n // 2
+        elif r < 0.75:
+            cap = rng.choice([5, 10**9]); sizes = [cap] * min(n, 513); ek = len(sizes)
+        else:
+            cap = rng.choice([10, 12, 100]); sizes = [0 if rng.random() < 0.03 else rng.randint(1, cap) for _ in range(min(n, 1025))]; ek = None
+        c = _k("bin", "r2-S-n", sizes=sizes, capacity=cap, algorithm=algo)
+        if ek is not None:
+            c["expect_k"] = ek
+        return c
+    if fam == "I":
+        c = gen_bin(rng, "int")
+        how = rng.choice(CONTAINERS)
+        c["sizes"] = [int(frac(x)) for x in c["sizes"]]
+        c["capacity"] = int(frac(c["capacity"]))
+        if how == "range":
+            n = rng.randint(1, 8)
+            a, st = rng.randint(0, 2), rng.choice([1, 1, 2])
+            c["sizes"] = list(range(a, a + st * n, st))
+            c["capacity"] = max(c["sizes"] + [1]) + rng.randint(0, 3)
+        if how == "array" and rng.random() < 0.5:
+            c["sizes"] = [float(x) for x in c["sizes"]]
+        return {**c, "cls": "r2-I", "as": how}
+    if fam == "L-mixed":
+        c = gen_bin(rng, rng.choice(["int", "dyadic"]))
+        c["sizes"] = [float(x) if rng.random() < 0.5 else x for x in c["sizes"]]
+        return {**c, "cls": "r2-L-mixed"}
+    if fam == "A":
+        c = gen_bin(rng, rng.choice(["int", "dyadic", "decimal"]))
+        pre = list(MAIN_ALGOS)
+        rng.shuffle(pre)
+        c["pre"] = pre[: rng.randint(1, 4)]
+        return {**c, "cls": "r2-A" if c["cls"] != "decimal" else "r2-A-decimal"}
+    if fam == "H":
+        # rare histories: a zero-size item is processed first (opens bin 0 itself), only zero sizes, a best-fit tie
+        c = gen_bin(rng, "int")
+        r = rng.random()
+        if r < 0.4 and c["sizes"]:
+            c["sizes"][0] = 0
+            c["algorithm"] = rng.choice(["first-fit", "best-fit"])
+        elif r < 0.55:
+            c["sizes"] = [0] * len(c["sizes"])
+        else:
+            cap = int(frac(c["capacity"]))
+            if cap >= 3:
+                c["sizes"] = [cap - 1, cap - 1, cap - 2, 1, 1, 2][: rng.randint(4, 6)]      # several bins with equal remaining space
+                c["algorithm"] = rng.choice(["best-fit", "best-fit-decreasing"])
+        return {**c, "cls": "r2-H"}
+    raise ValueError(fam)
+
+
+def spelling_sweep(rng):
+    """Class O: every spelling of the algorithm option on a few instances (they must behave as the canonical name)."""
+    out = []
+    for _ in range(2):
+        c = gen_bin(rng, rng.choice(["int", "dyadic"]))
+        for sp in SPELLINGS:
+            out.append({**c, "cls": "r2-O-spelling", "algorithm": sp})
+    return out
+
+
+R2_KNAP = [("S-cap", 14, 60), ("S-n", 12, 60), ("M-val", 24, 300), ("M-val-huge", 12, 150), ("M-w", 16, 200), ("M-capf", 6, 30),
+           ("M-tol", 30, 400), ("I", 24, 300), ("L-mixed", 20, 300), ("L-decvals", 30, 400), ("A", 30, 400), ("O", 12, 100), ("H", 40, 600)]
+R2_BIN = [("M-int", 60, 900), ("M-tol", 30, 400), ("M-tiny", 16, 200), ("S-n", 12, 50), ("I", 24, 300), ("L-mixed", 20, 300),
+          ("A", 30, 400), ("H", 40, 600)]
+
+
+def bin_exact(c):
+    """The float run computes exactly: Python ints of any size, or floats whose sums stay below 2^53 / dyadic."""
+    xs = list(c["sizes"]) + [c["capacity"]]
+    if all(isinstance(x, int) and not isinstance(x, bool) for x in xs):
+        return True
+    if all(is_intlike(x) for x in xs):
+        return sum(abs(frac(x)) for x in xs) < 2**53
+    return all(is_dyadic(x) for x in xs)
+
+
 # ---------------------------------------------------------------- implementation runs
+def _as_container(xs, how):
+    """Class I: the API takes Sequences - lists, tuples, ranges and typed arrays must behave alike."""
+    xs = list(xs)
+    if how == "tuple":
+        return tuple(xs)
+    if how == "range" and xs and all(isinstance(x, int) and not isinstance(x, bool) for x in xs):
+        step = (xs[1] - xs[0]) if len(xs) > 1 else 1
+        if step != 0:
+            r = range(xs[0], xs[0] + step * len(xs), step)
+            if list(r) == xs:
+                return r
+    if how == "array" and xs:
+        from array import array
+        if all(isinstance(x, int) and not isinstance(x, bool) and abs(x) < 2**62 for x in xs):
+            return array("q", xs)
+        if all(isinstance(x, float) for x in xs):
+            return array("d", xs)
+    return xs
+
+
+def _snap(seq):
+    return (type(seq).__name__, [repr(x) for x in seq])
+
+
+def knap_cells(c):
+    """Upper estimate of the DP table size the code builds (items x capacity columns)."""
+    try:
+        fcap = frac(c["capacity"])
+        pos = [fcap] + [frac(w) for w in c["weights"] if frac(w) > 0]
+        cols = int(fcap) if all(x.denominator == 1 for x in pos) else min(100000, int(fcap * 1000) + 1)
+        return len(c["values"]) * (max(cols, 0) + 1)
+    except Exception:  # noqa: BLE001
+        return 0
+
+
 def run_knap_impl(c):
     from solvor.knapsack import solve_knapsack
 
-    r = guarded(solve_knapsack, list(c["values"]), list(c["weights"]), c["capacity"], minimize=c["minimize"], timeout=20)
+    def canon(res):
+        sol = res.solution
+        if any(not isinstance(i, int) or isinstance(i, bool) for i in sol):
+            raise ValueError(f"non-int index in {sol!r}")
+        return ([int(i) for i in sol], frac(res.objective), res.status.name)
+
+    vals = _as_container(c["values"], c.get("as", "list"))
+    ws = vals if c.get("alias") else _as_container(c["weights"], c.get("as", "list"))
+    before = (_snap(vals), _snap(ws))
+    light = knap_cells(c) <= 60000
+    for pre in c.get("pre", []):          # class A: earlier calls on the same objects with other options
+        guarded(solve_knapsack, vals, ws, c["capacity"], minimize=pre, timeout=20)
+    r = guarded(solve_knapsack, vals, ws, c["capacity"], minimize=c["minimize"], timeout=30)
+    if (_snap(vals), _snap(ws)) != before:
+        return ("bad", f"solve_knapsack modified its inputs: {before} -> {(_snap(vals), _snap(ws))}")
     if r[0] != "ok":
         return r
-    res = r[1]
-    sol = res.solution
     try:
-        obj = frac(res.objective)
-        sel = [int(i) for i in sol]
-        if any(not isinstance(i, int) or isinstance(i, bool) for i in sol):
-            return ("bad", f"non-int index in {sol!r}")
+        out = canon(r[1])
     except Exception as e:  # noqa: BLE001
-        return ("bad", f"uncanonicalisable result {res!r}: {e}")
-    return ("ok", (sel, obj, res.status.name))
+        return ("bad", f"uncanonicalisable result {r[1]!r}: {e}")
+    if light:                              # class A: the same call again on the same objects gives the same answer
+        r2 = guarded(solve_knapsack, vals, ws, c["capacity"], minimize=c["minimize"], timeout=30)
+        try:
+            out2 = canon(r2[1]) if r2[0] == "ok" else r2
+        except Exception as e:  # noqa: BLE001
+            out2 = ("bad", str(e))
+        if out2 != out:
+            return ("bad", f"second identical call differs: {out!r} then {out2!r}")
+        if (_snap(vals), _snap(ws)) != before:
+            return ("bad", "solve_knapsack modified its inputs on the second call")
+    return ("ok", out)
 
 
 def run_bin_impl(c):
     from solvor.bin_pack import solve_bin_pack
 
-    r = guarded(solve_bin_pack, list(c["sizes"]), c["capacity"], algorithm=c["algorithm"], timeout=10)
+    def canon(res):
+        if any(not isinstance(b, int) or isinstance(b, bool) for b in res.solution):
+            raise ValueError(f"non-int bin in {res.solution!r}")
+        return ([int(b) for b in res.solution], frac(res.objective), res.status.name)
+
+    sizes = _as_container(c["sizes"], c.get("as", "list"))
+    before = _snap(sizes)
+    light = len(c["sizes"]) <= 300
+    for pre in c.get("pre", []):
+        guarded(solve_bin_pack, sizes, c["capacity"], algorithm=pre, timeout=10)
+    r = guarded(solve_bin_pack, sizes, c["capacity"], algorithm=c["algorithm"], timeout=20)
+    if _snap(sizes) != before:
+        return ("bad", f"solve_bin_pack modified its input: {before} -> {_snap(sizes)}")
     if r[0] != "ok":
         return r
-    res = r[1]
     try:
-        asg = [int(b) for b in res.solution]
-        if any(not isinstance(b, int) or isinstance(b, bool) for b in res.solution):
-            return ("bad", f"non-int bin in {res.solution!r}")
-        k = frac(res.objective)
+        out = canon(r[1])
     except Exception as e:  # noqa: BLE001
-        return ("bad", f"uncanonicalisable result {res!r}: {e}")
-    return ("ok", (asg, k, res.status.name))
+        return ("bad", f"uncanonicalisable result {r[1]!r}: {e}")
+    if light:
+        r2 = guarded(solve_bin_pack, sizes, c["capacity"], algorithm=c["algorithm"], timeout=20)
+        try:
+            out2 = canon(r2[1]) if r2[0] == "ok" else r2
+        except Exception as e:  # noqa: BLE001
+            out2 = ("bad", str(e))
+        if out2 != out:
+            return ("bad", f"second identical call differs: {out!r} then {out2!r}")
+        if _snap(sizes) != before:
+            return ("bad", "solve_bin_pack modified its input on the second call")
+    return ("ok", out)
 
 
 def _run_case(c):
@@ -310,16 +660,22 @@ def oracle_knap(c, out):
     tw = sum(ws[i] for i in sel)
     if tw > cap:
         return ("capacity", f"selection {sel} weighs {tw} > capacity {cap}")
-    if obj != sum(vals[i] for i in sel):
+    vtol = Fraction(0) if all(is_dyadic(v, 30) or is_intlike(v) for v in c["values"]) else EPS * max(1, sum(abs(v) for v in vals))
+    if abs(obj - sum(vals[i] for i in sel)) > vtol:       # exact, except for non-dyadic decimal values (float sum: 1e-9 relative)
         return ("objective", f"objective {obj} != sum of selected values {sum(vals[i] for i in sel)}")
     if status not in ("OPTIMAL", "FEASIBLE"):
         return ("status", status)
-    if status == "OPTIMAL" and n <= 12 and all(w >= 0 for w in ws):
-        best = _knap_best(vals, ws, cap, c["minimize"])
-        worse = obj > best if c["minimize"] else obj < best
+    integral_w = all(w.denominator == 1 for w in ws) and cap.denominator == 1
+    if status == "OPTIMAL" and all(w >= 0 for w in ws) and (n <= 12 or (integral_w and cap <= 20000)):
+        if n <= 12:
+            best = _knap_best(vals, ws, cap, c["minimize"])
+            if integral_w and cap <= 300 and n <= 9 and _knap_ref(vals, ws, cap, c["minimize"]) != best:
+                return ("oracle-bug", "reference DP and brute force disagree")
+        else:
+            best = _knap_ref(vals, ws, cap, c["minimize"])
+        worse = obj > best + vtol if c["minimize"] else obj < best - vtol
         if worse:
-            integral = all(w.denominator == 1 for w in ws) and cap.denominator == 1
-            return ("optimal-int" if integral else "optimal-decimal",
+            return ("optimal-int" if integral_w else "optimal-decimal",
                     f"labelled OPTIMAL with objective {obj}, but a subset within capacity has value {best}")
     return None
 
@@ -337,6 +693,24 @@ def _knap_best(vals, ws, cap, minimize):
         if w <= cap and ((v < best) if minimize else (v > best)):
             best = v
     return best
+
+
+def _knap_ref(vals, ws, cap, minimize):
+    """Independent reference for many items, integer weights: best value per exact total weight (sparse table)."""
+    sgn = -1 if minimize else 1
+    best = {0: Fraction(0)}
+    cap = int(cap)
+    for v, w in zip(vals, ws):
+        w = int(w)
+        if w > cap:
+            continue
+        new = dict(best)
+        for tw, tv in best.items():
+            t = tw + w
+            if t <= cap and (t not in new or sgn * (tv + v) > sgn * new[t]):
+                new[t] = tv + v
+        best = new
+    return sgn * max(sgn * x for x in best.values())
 
 
 def bin_should_raise(c):
@@ -398,8 +772,10 @@ def oracle_bin(c, out, stats=None):
         return ("numbering", f"assignment {asg} outside 0..{k - 1}")
     if set(asg) != set(range(k)):
         return ("numbering", f"bins used {sorted(set(asg))} but objective {k}")
-    for b in range(k):
-        ld = sum(sizes[i] for i in range(n) if asg[i] == b)
+    loads = [Fraction(0)] * k
+    for i in range(n):
+        loads[asg[i]] += sizes[i]
+    for b, ld in enumerate(loads):
         if ld > cap + EPS:        # the code's fit test has the absolute tolerance _EPS = 1e-9
             return ("capacity", f"bin {b} holds {ld} > {cap} (+1e-9)")
     if k * cap < sum(sizes):
@@ -408,6 +784,8 @@ def oracle_bin(c, out, stats=None):
         return ("status", status)
     if n == 0:
         return None if status == "OPTIMAL" and k == 0 else ("empty", f"{out[1]!r}")
+    if c.get("expect_k") is not None and k != c["expect_k"]:
+        return ("by-construction", f"{k} bins, but this instance is packed into exactly {c['expect_k']} bins by every one of the four heuristics")
     if n <= 8:
         opt = _bin_opt(sizes, cap)
         if stats is not None:
@@ -498,12 +876,13 @@ def knap_float_safe(c, out):
     margin must not be tiny, and the greedy fallback (float divisions and running subtraction) is not compared."""
     vals, ws, cap = c["values"], c["weights"], c["capacity"]
     if not all(is_dyadic(v) for v in vals):
-        return False
+        if not (all(is_intlike(v) for v in vals) and sum(abs(frac(v)) for v in vals) < 2**53):
+            return False              # the code's DP table is float: value sums from 2^53 on are rounded (outside the model)
     fws = [frac(w) for w in ws]
     fcap = frac(cap)
     pos = [fcap] + [w for w in fws if w > 0]
-    if all(x.denominator == 1 for x in pos) and all(abs(x) < 1 << 40 for x in pos):
-        return True
+    if all(x.denominator == 1 for x in pos) and fcap < 1 << 40:
+        return True                       # integer path: weights beyond the capacity never matter, whatever their size
     dy = all(is_dyadic(w) for w in ws) and is_dyadic(cap)
     if dy and fcap <= 100:
         return True                       # scale == 1000.0 exactly, products and sums of dyadics exact
@@ -543,6 +922,100 @@ def _gcd(a, b):
     return a
 
 
+def knap_model_cost(c):
+    """List cells the Gallina model touches (items x (capacity columns + shift of the item's integer weight)); the
+    integer weights become unary nat in the model, so huge weights must not be sent to coqc at all."""
+    try:
+        fcap = frac(c["capacity"])
+        fws = [frac(w) for w in c["weights"]]
+        if fcap < 0 or len(fws) != len(c["values"]):
+            return 0
+        pos = [fcap] + [w for w in fws if w > 0]
+        if all(x.denominator == 1 for x in pos):
+            cols, scale = int(fcap), Fraction(1)
+        elif fcap <= 0:
+            cols, scale = 0, Fraction(1)
+        else:
+            scale = min(Fraction(100000) / fcap, Fraction(1000))
+            cols = int(fcap * scale)
+        cost = 0
+        for w in fws:
+            iw = max(1, int(w * scale)) if w > 0 else 0
+            if iw > 400000:
+                return 10**12
+            cost += cols + 1 + iw
+        return cost
+    except Exception:  # noqa: BLE001
+        return 10**12
+
+
+def knap_events(c, out):
+    ev = []
+    if out[0] != "ok" or len(c["values"]) != len(c["weights"]) or not c["values"]:
+        return ev
+    sel, _, st = out[1]
+    n = len(c["values"])
+    fws = [frac(w) for w in c["weights"]]
+    fcap = frac(c["capacity"])
+    integral = all(x.denominator == 1 for x in [fcap] + [w for w in fws if w > 0])
+    if st == "FEASIBLE":
+        ev.append("fallback")
+        if c["minimize"]:
+            ev.append("fallback+minimize")
+        if any(w == 0 for w in fws):
+            ev.append("fallback+free-item")
+        rs = [frac(v) / w for v, w in zip(c["values"], fws) if w > 0]
+        if len(set(rs)) < len(rs):
+            ev.append("fallback+ratio-tie")
+    ev.append("integer-path" if integral else ("scale<1000" if fcap > 100 else "scale=1000"))
+    if integral and fcap > 100000:
+        ev.append("integer-capacity>1e5")
+    if fcap == 0:
+        ev.append("capacity-0")
+    if len(sel) == n:
+        ev.append("all-selected")
+    if not sel:
+        ev.append("none-selected")
+    if sel and sum(fws[i] for i in sel) == fcap:
+        ev.append("exact-fill")
+    if n > 12:
+        ev.append("n>12")
+    if any(abs(frac(v)) >= 2**53 for v in c["values"]):
+        ev.append("value>=2^53")
+    return ev
+
+
+def bin_events(c, out):
+    ev = []
+    if out[0] != "ok" or not c["sizes"]:
+        return ev
+    asg, k, st = out[1]
+    sizes = [frac(x) for x in c["sizes"]]
+    cap = frac(c["capacity"])
+    pa = parse_algo(c["algorithm"])
+    if pa is None:
+        return ev
+    first = max(range(len(sizes)), key=lambda i: (sizes[i], -i)) if pa[1] else 0
+    if sizes[first] == 0:
+        ev.append("zero-size-item-opens-bin-0")
+    if any(x == 0 for x in sizes):
+        ev.append("zero-size-item")
+    k = int(k)
+    loads = [Fraction(0)] * max(k, 0)
+    for i, b in enumerate(asg):
+        if 0 <= b < k:
+            loads[b] += sizes[i]
+    if any(ld == cap for ld in loads):
+        ev.append("exactly-full-bin")
+    lb = max(1, -(-sum(sizes) // cap))
+    ev.append("k=lower-bound" if k == lb else "k>lower-bound")
+    if cap >= 2**31:
+        ev.append("capacity>=2^31")
+    if len(sizes) > 256:
+        ev.append("n>256")
+    return ev
+
+
 # ---------------------------------------------------------------- the check
 def _corpus():
     out = []
@@ -569,11 +1042,15 @@ def _key(c):
 
 def shrink_knap(c, clause):
     """Drop items while the same clause still fails."""
+    import time
     cur = dict(c)
     changed = True
-    while changed and len(cur["values"]) > 1 and len(cur["values"]) == len(cur["weights"]):
+    t_end = time.time() + 20
+    while changed and len(cur["values"]) > 1 and len(cur["values"]) == len(cur["weights"]) and time.time() < t_end:
         changed = False
         for i in range(len(cur["values"])):
+            if time.time() > t_end:
+                break
             t = dict(cur, values=cur["values"][:i] + cur["values"][i + 1:], weights=cur["weights"][:i] + cur["weights"][i + 1:])
             bad = oracle_knap(t, run_knap_impl(t))
             if bad and bad[0] == clause:
@@ -583,11 +1060,17 @@ def shrink_knap(c, clause):
 
 
 def shrink_bin(c, clause):
-    cur = dict(c)
+    import time
+    cur = {k: v for k, v in c.items() if k != "expect_k"}
+    if c.get("expect_k") is not None:
+        return c                               # the by-construction count belongs to the whole instance
     changed = True
-    while changed and len(cur["sizes"]) > 1:
+    t_end = time.time() + 20
+    while changed and len(cur["sizes"]) > 1 and time.time() < t_end:
         changed = False
         for i in range(len(cur["sizes"])):
+            if time.time() > t_end:
+                break
             t = dict(cur, sizes=cur["sizes"][:i] + cur["sizes"][i + 1:])
             bad = oracle_bin(t, run_bin_impl(t))
             if bad and bad[0] == clause:
@@ -600,6 +1083,10 @@ def run(ctx: Ctx):
     ctx.rule = ("knapsack: n<=12 items, classes int / dyadic / fine-dyadic (forces the greedy fallback) / decimal / capacity>100 "
                 "(scale<1000), zero weights, capacity 0, exact fills, ties, minimize 30%; bin packing: n<=14, int / dyadic / decimal "
                 "sizes, zero sizes, exact fills, four heuristics + name aliases; plus malformed inputs (ValueError expected). "
+                "round-2 families: integer capacities beyond 10^5, 13..2049 items (independent sparse reference DP), values/weights/capacities "
+                "at 2^31..10^18, decimals one 1e-6..1e-8 grid step off an exact fill, bin packing blown up to 2^31..10^18 and nudged by units, "
+                "17..65537 items with by-construction bin counts, tuple/range/array containers, mixed int/float, every option spelling, "
+                "repeated and interleaved calls on shared inputs (inputs must stay unmodified), directed rare histories (event histograms). "
                 "non-trivial = knapsack answer selecting a proper non-empty subset or taking the fallback; packing using >=2 bins; "
                 "distinct = canonical JSON of the instance")
     ctx.notes += [
@@ -618,6 +1105,11 @@ def run(ctx: Ctx):
         "noted, not flagged (outside the property's quantifier / exact-integer clause): solve_knapsack([], w, c) returns the empty answer before any validation "
         "(negative capacity accepted when there are no items); solve_knapsack([1],[1.5000000005],1.5) selects item 0 (1e-9 tolerance of the final check); "
         "solve_knapsack([1,1],[0.0004,0.0004],0.001) -> (0,) OPTIMAL although both fit (weights below 1/scale are rounded up to one unit)",
+        "round 2: every implementation run checks that the caller's sequences are unmodified and (for small instances) that an identical second call "
+        "returns the same answer; knapsack instances with more than 12 items are judged by an independent sparse reference DP (integer weights), "
+        "cross-checked against brute force on small instances; large packing instances have their bin count known by construction",
+        "not generated (by-design tolerance, outside the theorems' grid hypothesis d < 10^9): decimals finer than 1e-8; the Gallina models are evaluated only "
+        "where the list-based DP stays affordable for vm_compute (histogram knap_float_guard: too-large-for-vm_compute) - larger instances are judged by the oracles only",
         "bin packing on non-dyadic decimals: the float run must use as many bins as the run of the same code on the integer-scaled instance; model correspondence "
         "is made on the float run only when both runs agree completely (bin_float_guard), and always on the integer-scaled twin",
     ]
@@ -644,11 +1136,22 @@ def run(ctx: Ctx):
         r = rng.random()
         cls = "int" if r < 0.5 else "dyadic" if r < 0.7 else "decimal" if r < 0.94 else "malformed"
         cases.append(gen_bin_malformed(rng) if cls == "malformed" else gen_bin(rng, cls))
-    # integer-scaled twins of the decimal packing cases (exact run of the same code)
+    # round-2 families (HARDENING.md): sizes beyond thresholds, magnitudes, containers, option spellings, call sequences, rare histories
+    thorough = ctx.tier == "thorough"
+    for fam, q, t in R2_KNAP:
+        for _ in range(ctx.budget(q, t)):
+            cases.append(gen_knap_r2(rng, fam, thorough))
+    for fam, q, t in R2_BIN:
+        for _ in range(ctx.budget(q, t)):
+            cases.append(gen_bin_r2(rng, fam, thorough))
+    for _ in range(ctx.budget(1, 6)):
+        cases += spelling_sweep(rng)
+    # integer-scaled twins of the non-exact (decimal) packing cases (exact run of the same code)
     twins = {}
     for c in list(cases):
-        if c["kind"] == "bin" and c["cls"] == "decimal":
+        if c["kind"] == "bin" and not bin_exact(c) and not bin_should_raise(c) and len(c["sizes"]) > 0:
             t = scaled_bin_case(c)
+            t.pop("as", None)
             twins[_key(c)] = len(cases)
             cases.append(t)
 
@@ -684,15 +1187,19 @@ def run(ctx: Ctx):
             ctx.sample({"case": c, "impl": repr(out)}, 2)
             if len(c["values"]) > 0 and len(c["values"]) == len(c["weights"]) and out[0] == "ok" and out[1][2] == "FEASIBLE":
                 ctx.count("knap_fallback_taken", 1)
+            for ev in knap_events(c, out):
+                ctx.count("knap_events", ev)
             # Coq spec check on the implementation's output (independent of the model)
             obs = knap_obs_q(out)
-            if obs is not None:
+            exact_vals = all(is_dyadic(v, 30) or is_intlike(v) for v in c["values"])      # else the objective is a rounded float sum
+            if obs is not None and exact_vals:
                 ks_cases.append(f"({knap_in_q(c)}, {obs})")
                 ks_meta.append((c, out))
             # correspondence with the rational model
             safe = knap_float_safe(c, out)
-            ctx.count("knap_float_guard", "compared" if safe else "skipped")
-            if safe:
+            cheap = knap_model_cost(c) <= 450000
+            ctx.count("knap_float_guard", ("compared" if cheap else "too-large-for-vm_compute") if safe else "skipped")
+            if safe and cheap:
                 if obs is None:
                     ctx.violation(f"solve_knapsack: outcome outside the modelled observables: {out!r}", {"kind": "knap", "case": c, "impl": repr(out)})
                 else:
@@ -702,7 +1209,7 @@ def run(ctx: Ctx):
                 # and with the integer model when everything is integral
                 allint = all(is_intlike(x) for x in list(c["values"]) + list(c["weights"]) + [c["capacity"]])
                 oz = knap_obs_z(out)
-                if allint and oz is not None and frac(c["capacity"]) <= 4000:
+                if allint and oz is not None:
                     kz_cases.append(f"({knap_in_z(c)}, {oz})")
                     kz_meta.append((c, out))
         else:
@@ -718,14 +1225,20 @@ def run(ctx: Ctx):
             if out[0] == "ok" and out[1][1] >= 2:
                 ctx.nontriv(_key(c))
             ctx.sample({"case": c, "impl": repr(out)}, 4)
+            for ev in bin_events(c, out):
+                ctx.count("bin_events", ev)
             obs = bin_obs(out)
             unknown_algo = parse_algo(c["algorithm"]) is None
-            if obs is not None and not (unknown_algo and len(c["sizes"]) > 0 and not _other_bin_error(c)):
+            nsz = len(c["sizes"])
+            spec_cheap = out[0] != "ok" or nsz * nsz * max(1, int(out[1][1])) <= 3_000_000      # bin_check is O(k n^2) on lists
+            if obs is not None and spec_cheap and not (unknown_algo and len(c["sizes"]) > 0 and not _other_bin_error(c)):
                 bs_cases.append(f"({bin_in(c, False)}, {obs})")
                 bs_meta.append((c, out))
             if unknown_algo:
                 continue                       # judged by the oracle only (the model has no algorithm string)
-            exact = all(is_dyadic(s) for s in c["sizes"]) and is_dyadic(c["capacity"])
+            if nsz > 1100:
+                continue                       # model evaluation too slow; judged by the oracle (by-construction bin count)
+            exact = bin_exact(c)
             if not exact:
                 t = twins.get(_key(c))
                 same = t is not None and outs[t] == out
